@@ -157,14 +157,22 @@ def run_point(p, variant=0):
     with warnings.catch_warnings(record=True) as w, net:
         warnings.simplefilter("always")
         try:
-            if route == "direct":
-                pool = urllib3.HTTPSConnectionPool(HOSTS[p["host"]], 443, retries=False, **kw)
+            # API variants (not lattice dimensions): bare pool or PoolManager; retries off or one retry
+            retries = False if variant % 4 else 1
+            obs["api"] = {"retries": retries, "via": "pool"}
+            if route == "direct" and variant % 3 != 2:
+                pool = urllib3.HTTPSConnectionPool(HOSTS[p["host"]], 443, retries=retries, **kw)
                 pool.ConnectionCls = RecConn
                 obs["stage"] = "request"
                 r = pool.urlopen("GET", "/")
             else:
-                scheme = "https" if plan["proxy"] == "https" else "http"
-                pm = urllib3.ProxyManager(f"{scheme}://{PROXY_HOST}:3128", retries=False, **kw)
+                if route == "direct":
+                    pm = urllib3.PoolManager(retries=retries, **kw)
+                    obs["api"]["via"] = "poolmanager"
+                else:
+                    scheme = "https" if plan["proxy"] == "https" else "http"
+                    pm = urllib3.ProxyManager(f"{scheme}://{PROXY_HOST}:3128", retries=retries, **kw)
+                    obs["api"]["via"] = "proxymanager"
                 pool = pm.connection_from_host(URL_HOSTS[p["host"]].replace("%25", "%"), 443, "https")
                 pool.ConnectionCls = RecConn
                 obs["stage"] = "request"
